@@ -243,10 +243,12 @@ func (db *DB) enqueueCommitRequest(cr *commitRequest) error {
 		cq.releaseSpace()
 		return utils.ErrBlockedWrites
 	}
+	utils.VerifYield("cq.enqueue.before-push")
 	if !cq.ring.Push(cr) {
 		cq.releaseSpace()
 		return utils.ErrBlockedWrites
 	}
+	utils.VerifYield("cq.enqueue.after-push")
 	atomic.AddInt64(&cq.queueLen, 1)
 	cq.releaseItem()
 	queued = true
